@@ -138,6 +138,10 @@ class VariablesCollector(ValidationVisitor):
             OrderedDict
         )  # type: VariableUsages
         self._fragment_fragments = DefaultOrderedDict(list)  # type: LMap[str]
+        # Every single usage (a variable can be used more than once, at
+        # positions of different types).
+        self._op_variable_usages = DefaultOrderedDict(list)  # type: ignore
+        self._fragment_variable_usages = DefaultOrderedDict(list)  # type: ignore
         self._in_var_def = False
 
     def enter_operation_definition(self, node):
@@ -175,17 +179,13 @@ class VariablesCollector(ValidationVisitor):
         if self._in_var_def:
             pass
         elif self._op is not None:
-            self._op_variables[self._op][var] = (  # type: ignore
-                node,
-                input_type,
-                input_value_def,
-            )
+            usage = (node, input_type, input_value_def)
+            self._op_variables[self._op][var] = usage  # type: ignore
+            self._op_variable_usages[self._op].append((var, usage))
         elif self._fragment is not None:
-            self._fragment_variables[self._fragment][var] = (  # type: ignore
-                node,
-                input_type,
-                input_value_def,
-            )
+            usage = (node, input_type, input_value_def)
+            self._fragment_variables[self._fragment][var] = usage  # type: ignore
+            self._fragment_variable_usages[self._fragment].append((var, usage))
 
     def _flatten_fragments(self):
         for parent, children in self._fragment_fragments.items():
